@@ -17,18 +17,21 @@ theorem validatePart_clean (b v : Bytes) (h : validatePartBytes b = .ok v) : has
   · cases h
   · rename_i hc; cases h; simpa using hc
 
+theorem validateNameBytes_ok (b v : Bytes) (h : validateNameBytes b = .ok v) :
+    validatePartBytes b = .ok v ∧ nameRefused v = false := by
+  simp only [validateNameBytes] at h
+  cases hp : validatePartBytes b with
+  | error e => simp [hp] at h
+  | ok m =>
+    simp only [hp] at h
+    split at h
+    · cases h
+    · rename_i hr; cases h; exact ⟨rfl, by simpa using hr⟩
+
 theorem validateName_ok (n : HV) (v : Bytes) (h : validateName n = .ok v) :
     ∃ b, n = .bytes b ∧ validatePartBytes b = .ok v ∧ nameRefused v = false := by
   cases n with
-  | bytes b =>
-    simp only [validateName] at h
-    cases hp : validatePartBytes b with
-    | error e => simp [hp] at h
-    | ok m =>
-      simp only [hp] at h
-      split at h
-      · cases h
-      · rename_i hr; cases h; exact ⟨b, rfl, hp, by simpa using hr⟩
+  | bytes b => obtain ⟨h1, h2⟩ := validateNameBytes_ok b v h; exact ⟨b, rfl, h1, h2⟩
   | str s => cases h
   | int n => cases h
   | none => cases h
@@ -104,15 +107,29 @@ theorem no_pseudo_in_headers : ∀ (hs : List (HV × HV)) (vh : Headers), valida
           · obtain ⟨_, _, _, hr'⟩ := validateName_ok _ _ hn; exact hr'
           · exact ih r hr x hx
 
-/-- whatever whitespace hides it: a name whose stripped form starts with `:` (or is empty) makes the list invalid -/
+/-- whatever whitespace hides it: a name whose stripped form is empty, starts with `:` or is not a token makes the list invalid -/
 theorem pseudo_header_rejected (b : Bytes) (v : HV) (rest : List (HV × HV)) (h : nameRefused (Bytes.strip b) = true) :
     ∃ e, validateHeaders ((.bytes b, v) :: rest) = .error e := by
-  simp only [validateHeaders, validateName, validatePartBytes, bind, Except.bind]
+  simp only [validateHeaders, validateName, validateNameBytes, validatePartBytes, bind, Except.bind]
   by_cases hc : hasCtl (Bytes.strip b) = true <;> simp [hc, h]
+
+/-- every name that leaves validation is a token (so it can be framed on every protocol) -/
+theorem validated_names_are_tokens (hs : List (HV × HV)) (vh : Headers) (h : validateHeaders hs = .ok vh) :
+    ∀ x ∈ vh, x.1 ≠ [] ∧ x.1.all isTchar = true := by
+  intro x hx
+  have hp := no_pseudo_in_headers hs vh h x hx
+  simp only [nameRefused, Bool.or_eq_false_iff, Bool.not_eq_false'] at hp
+  refine ⟨?_, hp.2⟩
+  intro he
+  rw [he] at hp
+  simp at hp
 
 example : validateHeaders [(.bytes " :status".b, .bytes "200".b)] = .error .valueError := by rfl
 example : validateHeaders [(.bytes "  ".b, .bytes "v".b)] = .error .valueError := by rfl
 example : validateHeaders [(.bytes ":authority".b, .bytes "x".b)] = .error .valueError := by rfl
+example : validateHeaders [(.bytes "bad name".b, .bytes "x".b)] = .error .valueError := by rfl
+example : validateHeaders [(.bytes "x:y".b, .bytes "x".b)] = .error .valueError := by rfl
+example : validateHeaders [(.bytes "X-Ok_1.2~".b, .bytes "x".b)] = .ok [("X-Ok_1.2~".b, "x".b)] := by rfl
 
 theorem str_name_rejected (s : String) (v : HV) (rest : List (HV × HV)) :
     ∃ e, validateHeaders ((.str s, v) :: rest) = .error e := by
@@ -514,13 +531,14 @@ private theorem validateExtra_clean : ∀ (l r : Headers), Ws.validateExtra l = 
   | cons a t ih =>
     intro r hr
     simp only [Ws.validateExtra] at hr
-    cases hn : validatePartBytes a.1 with
+    cases hn : validateNameBytes a.1 with
     | error e => simp [hn] at hr
     | ok n =>
+      obtain ⟨hpart, hnr⟩ := validateNameBytes_ok _ _ hn
       simp only [hn] at hr
       split at hr
       · cases hr
-      · rename_i hnr
+      · rename_i hproto
         simp only [bind, Except.bind] at hr
         cases hv : validatePartBytes a.2 with
         | error e => simp [hv] at hr
@@ -531,19 +549,18 @@ private theorem validateExtra_clean : ∀ (l r : Headers), Ws.validateExtra l = 
             simp [hv, ht, pure, Except.pure] at hr
             subst hr
             obtain ⟨hl, hc, hp, hs⟩ := ih t' ht
-            simp only [Bool.or_eq_true, beq_iff_eq, not_or] at hnr
             refine ⟨by simp [hl], ?_, ?_, ?_⟩
             · intro x hx
               rcases List.mem_cons.mp hx with rfl | hx
-              · exact ⟨validatePart_clean _ _ hn, validatePart_clean _ _ hv⟩
+              · exact ⟨validatePart_clean _ _ hpart, validatePart_clean _ _ hv⟩
               · exact hc x hx
             · intro x hx
               rcases List.mem_cons.mp hx with rfl | hx
-              · simpa using hnr.2
+              · exact hnr
               · exact hp x hx
             · intro x hx
               rcases List.mem_cons.mp hx with rfl | hx
-              · exact hnr.1
+              · simpa using hproto
               · exact hs x hx
 
 /-- the extra headers an application passes to `websocket.accept` are rendered (after the server's own handshake
